@@ -107,3 +107,140 @@ def corpus_charts():
             if c.notes is not None:
                 out.append((p, i, c.notes))
     return out
+
+
+# ---------------------------------------------------------------------------------------------
+# timing data
+TAGS = ["WARP", "WARP_END", "BPM", "DELAY", "DELAY_END", "STOP", "STOP_END"]
+
+
+def timing(rng, small=False, max_beat=None):
+    """random timing data inside the domain of C11-C13: first BPM at beat 0, positive BPMs, strictly increasing
+    tick-aligned beats per list, positive pause and warp lengths; returns dict of lists of (Fraction beat, Decimal value)"""
+    hi = max_beat or rng.choice([2, 4, 8, 16, 50, 400])
+    def beats(n):
+        k = rng.randrange(0, n + 1)
+        grid = rng.choice([1, 2, 4, 4, 16, 48])
+        bs = set()
+        for _ in range(k):
+            bs.add(Fraction(rng.randrange(0, hi * grid + 1), grid))
+        return sorted(bs)
+    nmax = 4 if small else 12
+    def bpmv(): return rng.choice([Decimal(rng.choice([60, 90, 120, 128, 150, 175, 180, 200, 240])), Decimal(rng.randrange(1000, 2000000)) / 1000])
+    def pausev(): return rng.choice([Decimal("0.5"), Decimal("1"), Decimal("0.25"), Decimal("2"), Decimal(rng.randrange(1, 5000)) / 1000])
+    def warpv(): return rng.choice([Decimal("0.5"), Decimal("1"), Decimal("2"), Decimal("0.25"), Decimal("4"), Decimal("1.5"),
+                                    Decimal(rng.randrange(1, 48 * 8)) / 48 if rng.random() < .5 else Decimal(rng.randrange(11, 8000)) / 1000])
+    bpms = [(Fraction(0), bpmv())] + [(b, bpmv()) for b in beats(nmax) if b != 0]
+    td = {"bpms": bpms,
+          "stops": [(b, pausev()) for b in beats(nmax)],
+          "delays": [(b, pausev()) for b in beats(nmax)],
+          "warps": [(b, warpv()) for b in beats(nmax)],
+          "offset": rng.choice([Decimal(0), Decimal(0), Decimal("1.5"), Decimal("-0.25"), Decimal(rng.randrange(-100000, 100000)) / 1000])}
+    # coincidences: put pauses on warp starts / inside / at ends, BPM changes inside warps, events at beat 0
+    if td["warps"] and rng.random() < .7:
+        from simfile.timing import Beat
+        w = rng.choice(td["warps"]); we = w[0] + Beat(w[1])
+        for lst in ("stops", "delays", "bpms"):
+            if rng.random() < .5:
+                x = rng.choice([w[0], we, Beat((w[0] + we) / 2).round_to_tick()])
+                if x not in [b for b, _ in td[lst]] and x >= 0:
+                    td[lst].append((Fraction(x), bpmv() if lst == "bpms" else pausev())); td[lst].sort()
+    if rng.random() < .3:
+        for lst in ("stops", "delays", "warps"):
+            if rng.random() < .5 and Fraction(0) not in [b for b, _ in td[lst]]:
+                td[lst].insert(0, (Fraction(0), warpv() if lst == "warps" else pausev()))
+    return td
+
+
+def td_json(td):
+    """for the Lean driver: exact rationals"""
+    f = lambda l: [[frac(b), frac(Fraction(v))] for b, v in l]
+    return {"bpms": f(td["bpms"]), "stops": f(td["stops"]), "delays": f(td["delays"]), "warps": f(td["warps"]),
+            "offset": frac(Fraction(td["offset"]))}
+
+
+def td_show(td):
+    f = lambda l: ",".join("%s=%s" % (b, v) for b, v in l)
+    return {"bpms": f(td["bpms"]), "stops": f(td["stops"]), "delays": f(td["delays"]), "warps": f(td["warps"]), "offset": str(td["offset"])}
+
+
+def td_impl(td):
+    """the impl's TimingData built through the library's own parsers"""
+    from simfile.ssc import SSCSimfile
+    from simfile.timing import TimingData, Beat, BeatValue, BeatValues
+    t = TimingData(SSCSimfile.blank())
+    mk = lambda l: BeatValues([BeatValue(Beat(b), v) for b, v in l])
+    t.bpms, t.stops, t.delays, t.warps, t.offset = mk(td["bpms"]), mk(td["stops"]), mk(td["delays"]), mk(td["warps"]), td["offset"]
+    return t
+
+
+def td_from_simfile(sf, chart=None):
+    from simfile.timing import TimingData
+    t = TimingData(sf, chart)
+    g = lambda l: [(Fraction(e.beat), e.value) for e in l]
+    return {"bpms": g(t.bpms), "stops": g(t.stops), "delays": g(t.delays), "warps": g(t.warps), "offset": t.offset}
+
+
+def td_in_domain(td):
+    from simfile.timing import Beat
+    if not td["bpms"] or td["bpms"][0][0] != 0: return False
+    for k in ("bpms", "stops", "delays", "warps"):
+        bs = [b for b, _ in td[k]]
+        if any(not a < b for a, b in zip(bs, bs[1:])): return False
+        if any(b < 0 or (b * 48).denominator != 1 for b in bs): return False
+        if any(v <= 0 for _, v in td[k]): return False
+    if any(Beat(v) <= 0 for _, v in td["warps"]): return False
+    if any(v < 1 or v > 2000 for _, v in td["bpms"]): return False
+    return True
+
+
+class TimeSpec:
+    """The property's own statement of beat -> time, evaluated exactly with Fractions (prefix sums over ticks).
+    Transcribes Spec/Timeline.lean; cross-checked against the Lean spec on a sample by the adapters."""
+
+    def __init__(self, td, tag_order=None):
+        from simfile.timing import Beat
+        self.td = td
+        self.order = {t: i for i, t in enumerate(tag_order or TAGS)}
+        self.warps = [(b, b + Fraction(Beat(v))) for b, v in td["warps"]]
+        self.bpms = [(b, Fraction(v)) for b, v in td["bpms"]]
+        self.prefix = [Fraction(0)]
+
+    def in_warp(self, x):
+        return any(a <= x < e for a, e in self.warps)
+
+    def bpm_on(self, x):
+        cur = self.bpms[0][1]
+        for b, v in self.bpms:
+            if b <= x: cur = v
+        return cur
+
+    def tick_sum(self, k):
+        while len(self.prefix) <= k:
+            i = len(self.prefix) - 1
+            x = Fraction(i, 48)
+            self.prefix.append(self.prefix[-1] + (0 if self.in_warp(x) else Fraction(60, 48) / self.bpm_on(x)))
+        return self.prefix[k]
+
+    def key_le(self, a, b):
+        return a[0] < b[0] or (a[0] == b[0] and self.order[a[1]] <= self.order[b[1]])
+
+    def paused(self, b, g):
+        s = Fraction(0)
+        for x, v in self.td["delays"]:
+            if self.key_le((x, "DELAY_END"), (b, g)): s += Fraction(v)
+        for x, v in self.td["stops"]:
+            if self.key_le((x, "STOP_END"), (b, g)): s += Fraction(v)
+        return s
+
+    def time(self, b, g="STOP"):
+        base = -Fraction(self.td["offset"]) + self.paused(b, g)
+        if b < 0:
+            return base + b * 60 / self.bpms[0][1]
+        k = (b * 48).__floor__()
+        x = Fraction(k, 48)
+        return base + self.tick_sum(k) + (0 if self.in_warp(x) else (b - x) * 60 / self.bpm_on(x))
+
+    def hittable(self, b):
+        on = any(x == b for x, _ in self.td["stops"]) or any(x == b for x, _ in self.td["delays"])
+        return not (self.in_warp(b) and not on)
